@@ -53,6 +53,7 @@ def strip_q(t):
     return re.sub(r'\s+', ' ', t)
 
 OPAQUE_TYPES = []   # C06: set per translation group from cfg['opaque_types']
+PTR_ARITH_PLAIN = False   # C11: set per translation group from cfg['handle_refs']
 
 def ctype_of_str(t):
     t = strip_q(t)
@@ -91,6 +92,8 @@ def wrap(ct, e):
     if ct[0] == 's':
         return e
     if ct[0] == 'bool':
+        return e
+    if ct[0] == 'ptr' and PTR_ARITH_PLAIN:   # C11 ("handle_refs"): ++/-- of an abstract item pointer is plain +-1 on its abstract value
         return e
     raise TranslationError('wrap: unsupported type %r' % (ct,))
 
@@ -220,6 +223,20 @@ class Fn:
         # C04: "failing_locals": {fn: [local]} (a local object whose CONSTRUCTOR may throw, e.g. BucketMemory allocating from a pool) and
         # "failing_calls": {fn: [callee]} (a skipped call that may throw, e.g. RelocateCreate): each becomes a bool parameter <name>_fails
         # and the statement `if <name>_fails then RETURN[false] else ...` (same "completed flag" convention as functor mode "fails")
+        # C18: "try_catch": {"F": {"calls": {"createFunc": {"fails": "createFunc_fails", "count": "n_create", "effect": "created"},
+        #                                       "destroyFunc": {"effect": "destroyed"}}, "state": ["n_create", "created", "destroyed"]}}
+        # -- calls `obj.NAME(..)` through a function pointer / functor member are not executed: "effect" (ghost array field) counts the
+        #    calls per OBJECT value; "fails": a (Z -> bool) parameter applied to the ghost call counter "count" says whether THIS call
+        #    throws (a per-call schedule, threaded through every loop Fixpoint).  A throw inside `try { .. } catch (...) { H }` runs the
+        #    translation of H right at the throw point, i.e. with the locals / fields as they are at that moment; `throw;` in H (and a
+        #    throw outside any try) returns completed = false with the fields of that moment (the C04 "completed flag" convention;
+        #    unlike C04's "try_catch_fails" this works inside loops: loop results carry the flag and the ghost state).
+        self.tc_cfg = cfg.get('try_catch', {}).get(self.name)
+        self.tc_handler = None; self.tc_env = None
+        if self.tc_cfg:
+            for cn_, cc_ in self.tc_cfg.get('calls', {}).items():
+                if cc_.get('fails'):
+                    self.params.append((cc_['fails'], '(Z -> bool)')); self.env[cc_['fails']] = ('fnpred',)
         self.fail_locals = list(cfg.get('failing_locals', {}).get(self.name, []))
         self.fail_calls = list(cfg.get('failing_calls', {}).get(self.name, []))
         for fn_ in self.fail_locals + self.fail_calls:
@@ -355,6 +372,8 @@ class Fn:
                 return wrap(ct, f'(Z.lnot {a})')
             if op == '&' and self.ctx.cfg.get('addr_of_identity'):   # C11: `&obj` of an abstract (primitive/opaque) object is that abstract value
                 return a
+            if op == '*' and self.ctx.cfg.get('deref_identity'):   # C12: `*ptr` of an abstract (opaque) object pointer is that abstract value
+                return a
             if op == '*' and self.ctx.cfg.get('deref'):
                 # C15 ("deref": "<section var : Z -> Z>"): a read through a pointer (e.g. *mContainerVersion) is the abstract memory read
                 return f"({self.ctx.cfg['deref']} {a})"
@@ -373,6 +392,9 @@ class Fn:
         if k == 'CXXConstructExpr' and len(n.get('inner', [])) == 2 and self.ctx.cfg.get('opaque_types') \
                 and 'pair<' in (n.get('type', {}).get('desugaredQualType') or n.get('type', {}).get('qualType', '')):
             return f'({self.e(n["inner"][0])}, {self.e(n["inner"][1])})'   # C06: std::pair<iterator, bool>{ it, flag }
+        if k in ('CXXConstructExpr', 'CXXTemporaryObjectExpr') and self.ctx.cfg.get('construct_prim') and len(n.get('inner', [])) >= 2:
+            # C11: "construct_prim": "<Gallina fn>": a multi-argument construction of an opaque value (a position proxy) is that function of the arguments
+            return '(' + ' '.join([self.ctx.cfg['construct_prim']] + [self.e(a) for a in n['inner']]) + ')'
         if k in ('CXXConstructExpr', 'CXXTemporaryObjectExpr', 'CXXScalarValueInitExpr') and not n.get('inner') \
                 and self.name in self.ctx.cfg.get('null_construct', []):
             return '(0)'   # C12: `return Iterator();` of a function listed in "null_construct": the null iterator
@@ -405,6 +427,9 @@ class Fn:
             if nm not in self.env:
                 raise TranslationError(f'parameter {nm} is skipped/untyped but used in {self.name}')
             return nm
+        if rd['kind'] == 'VarDecl' and nm in getattr(self, 'struct_locals', {}):   # C20: a flattened struct local used as a value is re-packed
+            sd_ = self.ctx.cfg['struct_locals'][self.struct_locals[nm]]
+            return '(' + ' '.join([sd_['pack']] + [nm + '_' + f_ for f_ in sd_['fields']]) + ')'
         if rd['kind'] == 'VarDecl':
             if nm in getattr(self, 'aliases', {}):   # C12: `uint8_t& r = field[idx];` – a read of r is a read of the element
                 b, ix = self.aliases[nm]
@@ -451,6 +476,12 @@ class Fn:
         while base is not None and base['kind'] == 'ImplicitCastExpr' and base.get('castKind') in (
                 'UncheckedDerivedToBase', 'DerivedToBase') and base.get('inner'):   # C09: field of a base class (Params::blockSize)
             base = skip_wrappers(base['inner'][0])
+        # C04: "union_fields": ["mCapacity"]: a member of an ANONYMOUS union of *this (`this-><anonymous>.mCapacity`) listed there is the
+        # configured field of that name -- one field for the union's storage; its other view (a buffer the item creator writes into) is
+        # expressed by "functor_clobbers"
+        if base is not None and base['kind'] == 'MemberExpr' and not base.get('name') and nm in self.ctx.cfg.get('union_fields', []) \
+                and base.get('inner') and skip_wrappers(base['inner'][0]).get('kind') == 'CXXThisExpr':
+            base = None
         # this->field or field
         if base is None or base['kind'] == 'CXXThisExpr':
             if nm in self.ctx.fields:
@@ -513,7 +544,8 @@ class Fn:
         if b.get('kind') == 'MemberExpr' and b.get('name') in self.ctx.cfg.get('member_objects', {}):
             return b['name']
         if b.get('kind') == 'DeclRefExpr' and b['referencedDecl'].get('name') in self.opaque \
-                and self.env.get(b['referencedDecl']['name']) == ('u', 64) and self.ctx.cfg.get('opaque_objects'):
+                and self.env.get(b['referencedDecl']['name']) == ('u', 64) \
+                and b['referencedDecl'].get('name') in self.ctx.cfg.get('opaque_objects', {}):
             return ('local', b['referencedDecl']['name'])
         return None
 
@@ -1193,7 +1225,7 @@ class Fn:
     def note_write(self, nm):
         if nm in self.ctx.fields:
             self.writes_fields.add(nm)
-            if self.is_const:
+            if self.is_const and not (getattr(self, 'tc_cfg', None) and nm in self.tc_cfg.get('state', [])):   # C18: ghost state of try_catch is not a C++ member
                 raise TranslationError(f'const function {self.name} writes field {nm}')
 
     def tup(self, vs):
@@ -1214,6 +1246,22 @@ class Fn:
             return k()
         s = lst[0]; rest = lambda: self.stmts(lst[1:], k, jc)
         kind = s['kind']
+        self._cur_jc = jc   # C18 (try_catch): the jump context of the statement being translated
+        if kind == 'CXXTryStmt' and getattr(self, 'tc_cfg', None):   # C18
+            if lst[1:]:
+                raise TranslationError('try_catch: the try statement must be the last statement of the function')
+            hs_ = [x for x in s['inner'][1:] if x.get('kind') == 'CXXCatchStmt']
+            if len(hs_) != 1 or self.tc_handler is not None:
+                raise TranslationError('try_catch: exactly one, non-nested catch (...) handler is supported')
+            hb_ = [x for x in hs_[0].get('inner', []) if isinstance(x, dict) and x.get('kind') == 'CompoundStmt']
+            if not hb_ or not hb_[0].get('inner') or skip_wrappers(hb_[0]['inner'][-1]).get('kind') != 'CXXThrowExpr':
+                raise TranslationError('try_catch: the catch block must end in `throw;`')
+            self.tc_handler = hb_[0]; self.tc_env = dict(self.env)
+            txt_ = self.stmts([s['inner'][0]], k, jc)
+            self.tc_handler = None; self.tc_env = None
+            return txt_
+        if kind == 'CXXThrowExpr' and getattr(self, 'tc_cfg', None):   # C18: (re)throw = completed := false, fields as they are
+            return jc['ret']('false')
         if kind == 'CompoundStmt':
             saved = dict(self.env)
             inner = s.get('inner', [])
@@ -1230,6 +1278,15 @@ class Fn:
         if kind == 'DeclStmt':
             return self.decl(s, rest)
         if kind == 'ReturnStmt':
+            rt_ = self.ctx.cfg.get('return_tuple', {}).get(self.name)   # C12: `return Proxy(a, b, c);` -> the tuple of the selected constructor arguments
+            if rt_ and s.get('inner'):
+                vv_ = skip_wrappers(s['inner'][0])
+                while vv_.get('kind') in ('CXXConstructExpr', 'CXXFunctionalCastExpr', 'ImplicitCastExpr', 'CXXBindTemporaryExpr', 'MaterializeTemporaryExpr') \
+                        and len(vv_.get('inner', [])) == 1:
+                    vv_ = skip_wrappers(vv_['inner'][0])
+                if vv_.get('kind') in ('CXXTemporaryObjectExpr', 'CXXConstructExpr') and len(vv_.get('inner', [])) > max(rt_):
+                    return jc['ret']('(' + ', '.join(self.e(vv_['inner'][i_]) for i_ in rt_) + ')')
+                raise TranslationError('return_tuple: the returned expression is not a constructor call with enough arguments')
             if self.name in self.ctx.cfg.get('ignore_return', []):   # C12: returned iterator/pointer is not modelled
                 if getattr(self, 'fails_mode', False) and s.get('inner'):   # C04: `return callee(..)` where callee is itself in "fails" mode:
                     v_ = skip_wrappers(s['inner'][0])                       # the call is kept and the callee's completed flag is passed on
@@ -1298,6 +1355,28 @@ class Fn:
                     f'| None => (\n{rest()})\nend')
         if self.ctx.cfg.get('skip_placement_new') and skip_wrappers(s).get('kind') == 'CXXNewExpr':   # C08: `::new(p) T(...)` as a statement constructs an object that is not modelled
             return rest()
+        if kind == 'CXXTryStmt' and self.ctx.cfg.get('try_catch_fails') and getattr(self, 'fails_mode', False):
+            # C04: `try { B } catch (...) { H; throw; }` in "fails" mode: a throwing step inside B runs H and then leaves the function
+            # (or the enclosing handler) with completed = false; only a single catch-all handler that ends in `throw;` is accepted
+            if len(s['inner']) != 2 or s['inner'][1].get('kind') != 'CXXCatchStmt':
+                raise TranslationError('try_catch_fails: exactly one handler expected')
+            hb_ = [x for x in s['inner'][1].get('inner', []) if isinstance(x, dict) and x.get('kind') == 'CompoundStmt']
+            if len(hb_) != 1 or any(isinstance(x, dict) and x.get('kind') == 'VarDecl' for x in s['inner'][1].get('inner', [])):
+                raise TranslationError('try_catch_fails: catch (...) expected')
+            hst_ = list(hb_[0].get('inner', []))
+            if not hst_ or skip_wrappers(hst_[-1]).get('kind') != 'CXXThrowExpr' or skip_wrappers(hst_[-1]).get('inner'):
+                raise TranslationError('try_catch_fails: the handler must end in `throw;`')
+            saved_fk_ = getattr(self, 'fail_k', None)
+            def handler_k_():
+                self.fail_k = saved_fk_
+                t_ = self.stmts(hst_[:-1], lambda: self.fail_exit(), jc)
+                self.fail_k = handler_k_
+                return t_
+            def after_try_():
+                self.fail_k = saved_fk_
+                return self.stmts(lst[1:], k, jc)
+            self.fail_k = handler_k_
+            return self.stmts([s['inner'][0]], after_try_, jc)
         if kind == 'CXXTryStmt' and self.ctx.cfg.get('try_as_body'):   # C16: exceptions are not modelled: the try block alone
             return self.stmts([s['inner'][0]] + lst[1:], k, jc)
         if kind == 'DoStmt':
@@ -1319,13 +1398,27 @@ class Fn:
             v = vs[i]; nm = v['name']
             if nm in getattr(self, 'fail_locals', ()) and nm not in self._failed_locals:   # C04: the constructor of this local may throw
                 self._failed_locals.add(nm)
-                return f'if {nm}_fails then RETURN[false] else (\n{go(i)})'
+                return f'if {nm}_fails then {self.fail_exit()} else (\n{go(i)})'
             if nm in self.ctx.cfg.get('skip_locals', {}).get(self.name, []):   # C16: e.g. `MemManager& memManager = GetMemManager();` (a later use is an error)
                 return go(i + 1)
             if nm in self.ctx.cfg.get('pointer_locals', {}).get(self.name, {}):   # C02: `Node** children = pvGetChildren();` = a view of a configured (virtual) array field, usable only in array_copy ranges
                 return go(i + 1)
             if nm in self.env and nm not in self.opaque:
                 raise TranslationError(f'shadowing/redeclaration of {nm} in {self.name}')
+            sl_ = self.ctx.cfg.get('struct_locals', {})   # C20: "struct_locals": {"BufferBytes": {"fields": [f1, f2], "get": [g1, g2], "pack": fn}}: a local of a small
+            st_ = next((k_ for k_ in sl_ if k_ in (v.get('type', {}).get('qualType') or '')), None)   # POD struct type is flattened into scalars <local>_<field>
+            if st_ is not None:
+                init_ = [x for x in v.get('inner', []) if isinstance(x, dict) and x.get('kind') not in ('TypedefType',)]
+                if len(init_) != 1:
+                    raise TranslationError('struct local %s needs exactly one initialiser' % nm)
+                iv_ = self.e(init_[0])
+                if not hasattr(self, 'struct_locals'): self.struct_locals = {}
+                self.struct_locals[nm] = st_
+                out_ = ''
+                for f_, g_ in zip(sl_[st_]['fields'], sl_[st_]['get']):
+                    self.env[nm + '_' + f_] = ('s', 64)
+                    out_ += f'let {nm}_{f_} := ({g_} {iv_}) in\n'
+                return out_ + go(i + 1)
             if self.ctx.cfg.get('object_fields'):   # C14: `MemManager memManager(std::move(static_cast<MemManager&>(*this)));`
                 init_ = [x for x in v.get('inner', []) if isinstance(x, dict) and x.get('kind') not in ('TypedefType',)]
                 ov_ = self.obj_value(init_[0]) if len(init_) == 1 else None
@@ -1343,8 +1436,33 @@ class Fn:
             ct = ctype(v)
             if ct[0] == 'other' and 'pair' in ct[1]:
                 ct = ('pair',)
+            if nm in self.opaque and self.ctx.cfg.get('effect_in_opaque_init'):
+                # C02: `Node* newNode1 = CreateNode(isLeaf, n);` - the local stays an opaque parameter, but a callee listed in
+                # "effect_calls" still records its arguments (field := fn field args) before the binding
+                init0_ = [x for x in v.get('inner', []) if isinstance(x, dict) and x.get('kind') not in ('TypedefType',)]
+                iv0_ = skip_wrappers(init0_[0]) if init0_ else None
+                while iv0_ is not None and iv0_.get('kind') == 'ImplicitCastExpr':
+                    iv0_ = skip_wrappers(iv0_['inner'][0])
+                if iv0_ is not None and iv0_.get('kind') in ('CXXMemberCallExpr', 'CallExpr'):
+                    try:
+                        enm_ = self.callee_name(iv0_)[0]
+                    except TranslationError:
+                        enm_ = None
+                    eff0_ = self.ctx.cfg.get('effect_calls', {}).get(enm_)
+                    if eff0_ is not None:
+                        fld0_, fn0_ = eff0_
+                        if fld0_ not in self.ctx.fields:
+                            raise TranslationError('effect_calls: %s is not a configured field' % fld0_)
+                        self.note_write(fld0_)
+                        pre0_ = f'let {fld0_} := (' + ' '.join([fn0_, fld0_] + [self.e(a) for a in iv0_['inner'][1:]]) + ') in\n'
+                        if ct[0] == 'ptr': ct = ('u', 64)
+                        self.env[nm] = ct
+                        if (nm, coq_ty(ct)) not in self.extra_params:
+                            self.extra_params.append((nm, coq_ty(ct)))
+                        return pre0_ + go(i + 1)
             if nm in self.opaque:
                 if ct[0] == 'ptr': ct = ('u', 64)
+                if ct[0] == 'other' and '(lambda at' in ct[1] and self.ctx.cfg.get('handle_refs'): ct = ('u', 64)   # C11: an opaque lambda local is an abstract value
                 if ct[0] == 'other' and nm in self.ctx.cfg.get('opaque_objects', {}): ct = ('u', 64)   # C12: opaque class-typed local = a symbol
                 self.env[nm] = ct
                 if (nm, coq_ty(ct)) not in self.extra_params:
@@ -1439,6 +1557,9 @@ class Fn:
         wf = fi.out_fields()
         for f in wf:
             self.note_write(f)
+        if resname is None and getattr(fi, 'fails_mode', False) and getattr(self, 'fails_mode', False):   # C04: `callee(..);` where the callee
+            resname = self.fresh('c'); k0_ = k                                                              # may throw: its completed flag is tested
+            k = lambda: (lambda fe_: f'if {resname} then (\n{k0_()}) else {fe_}')(self.fail_exit())   # the failure exit of THIS point (a try block may end in k0_)
         res = resname if resname else '_'
         pat = "'(" + ', '.join([res] + wf) + ')' if wf else res
         return (f'match {fi.out} ' + ' '.join(args) + f' with\n| Ok {pat.lstrip(chr(39)) if not wf else pat[1:]} =>\n{k()}\n'
@@ -1446,6 +1567,12 @@ class Fn:
 
     def out_fields(self):
         return [f for f in self.fieldnames if f in self.writes_fields]
+
+    def fail_exit(self):
+        """C04: what happens when a step that may throw does throw: outside a try block the function is left at once (completed = false);
+        inside `try { .. } catch (...) { H; throw; }` ("try_catch_fails": true) the handler H runs first (see CXXTryStmt)"""
+        fk_ = getattr(self, 'fail_k', None)
+        return fk_() if fk_ else 'RETURN[false]'
 
     def ret_stmt(self, v, jc):
         vv = skip_wrappers(v)
@@ -1522,6 +1649,13 @@ class Fn:
                 return f"let '({', '.join(outs)}) := ({' '.join([oc['prim']] + ins)}) in\n{rest()}"
         if k == 'BinaryOperator' and s0['opcode'] == '=':
             rhs = skip_wrappers(s0['inner'][1])
+            if rhs['kind'] in ('CXXMemberCallExpr', 'CallExpr') and getattr(self, 'fail_calls', ()):   # C20: `x = f();` where f is a "failing_calls" primitive (an allocation that may throw)
+                try:
+                    rn_ = self.callee_name(rhs)[0]
+                except TranslationError:
+                    rn_ = None
+                if rn_ in self.fail_calls and self.ctx.cfg.get('primitives', {}).get(rn_) is not None:
+                    return f'if {rn_}_fails then {self.fail_exit()} else (\n' + self.assign_to(s0['inner'][0], self.e(s0['inner'][1]), rest) + ')'
             if rhs['kind'] in ('CXXMemberCallExpr', 'CallExpr') and self.is_nonsimple_call(rhs):
                 r = self.fresh('r')
                 return self.bind_call(rhs, r, lambda: self.assign_to(s0['inner'][0], r, rest))
@@ -1618,7 +1752,17 @@ class Fn:
                     self.note_write(g_)
                     return f'let {g_} := {v_} in\n{rest()}'
                 if fname and self.functors.get(fname) == 'fails':   # C04: the functor throws here, or the function goes on
-                    return f"if {fname}_fails then RETURN[false] else (\n{rest()})"
+                    # "functor_clobbers": {fn: {functor: [field]}}: the functor WRITES through a pointer that aliases the field (a union
+                    # member): whether it throws or not the field then holds an arbitrary value (parameter <functor>_clobber_<field>)
+                    pre_ = ''
+                    for cf_ in self.ctx.cfg.get('functor_clobbers', {}).get(self.name, {}).get(fname, []):
+                        if cf_ not in self.ctx.fields: raise TranslationError('functor_clobbers: %s is not a configured field' % cf_)
+                        cn_ = '%s_clobber_%s' % (fname, cf_)
+                        if (cn_, 'Z') not in self.extra_params:
+                            self.extra_params.append((cn_, 'Z')); self.env[cn_] = ('u', 64)
+                        self.note_write(cf_)
+                        pre_ += f'let {cf_} := {cn_} in\n'
+                    return pre_ + f"if {fname}_fails then {self.fail_exit()} else (\n{rest()})"
                 ea_ = self.ctx.cfg.get('effect_assign', {}).get(self.name)
                 if nm == 'operator=' and ea_ is not None and len(s0['inner']) == 3:
                     # C20: "effect_assign": {"<fn>": {"field": f, "fn": g, "args": [locals]}}: an assignment of a freshly constructed class
@@ -1650,8 +1794,35 @@ class Fn:
                     raise TranslationError('effect_calls: %s is not a configured field' % fld_)
                 self.note_write(fld_)
                 return f'let {fld_} := (' + ' '.join([fn_, fld_] + [self.e(a) for a in s0['inner'][1:]]) + f') in\n{rest()}'
+            if getattr(self, 'tc_cfg', None) and nm in self.tc_cfg.get('calls', {}):   # C18: try_catch
+                cc_ = self.tc_cfg['calls'][nm]
+                co_ = skip_wrappers(s0['inner'][0])
+                while co_.get('kind') == 'ImplicitCastExpr': co_ = skip_wrappers(co_['inner'][0])
+                if co_.get('kind') != 'MemberExpr' or not co_.get('inner'):
+                    raise TranslationError('try_catch: %s is not called as obj.%s(..)' % (nm, nm))
+                obj_ = self.e(co_['inner'][0])
+                jc_ = self._cur_jc
+                for f_ in [cc_.get('count'), cc_.get('effect')]:
+                    if f_ and f_ not in self.ctx.fields: raise TranslationError('try_catch: %s is not a configured field' % f_)
+                if cc_.get('fails'):
+                    if self.tc_handler is not None:   # inside the try block: the handler runs here, in the scope of the try statement
+                        saved_ = self.env; self.env = dict(self.tc_env)
+                        h_, self.tc_handler = self.tc_handler, None     # a throw inside the handler propagates
+                        thrown_ = self.stmts([h_], lambda: 'Stuck', jc_)
+                        self.tc_handler = h_; self.env = saved_
+                    else:
+                        thrown_ = jc_['ret']('false')
+                go_ = ''
+                if cc_.get('count'):
+                    self.note_write(cc_['count']); go_ += f"let {cc_['count']} := (wrapU 64 ({cc_['count']} + 1)) in\n"
+                if cc_.get('effect'):
+                    self.note_write(cc_['effect'])
+                    go_ += f"let {cc_['effect']} := upd {cc_['effect']} {obj_} (wrapU 64 ({cc_['effect']} {obj_} + 1)) in\n"
+                if cc_.get('fails'):
+                    return f"if ({cc_['fails']} {cc_['count']}) then (\n{thrown_})\nelse (\n{go_}{rest()})"
+                return go_ + rest()
             if nm in getattr(self, 'fail_calls', ()):   # C04: a call that is otherwise skipped but may throw
-                return f'if {nm}_fails then RETURN[false] else (\n{rest()})'
+                return f'if {nm}_fails then {self.fail_exit()} else (\n{rest()})'
             lc_ = self.ctx.cfg.get('log_calls', {}).get(nm)   # C16: ghost log: {"Destroy": {"arr": field, "n": field, "args": [1, 2]}} -- the call is
             if lc_ is not None:                                #      not executed, the listed argument VALUES are appended to the log array
                 la_ = s0['inner'][1:]; arr_, nn_ = lc_['arr'], lc_['n']
@@ -1822,7 +1993,7 @@ class Fn:
         return f'if {c} then (\n{t_txt})\nelse (\n{e_txt})'
 
     def returns_outcome_inside(self, txt):
-        return '| Stuck => Stuck' in txt or 'Stuck' in txt.split() or ' Exn' in txt
+        return '| Stuck => Stuck' in txt or 'Stuck' in txt.split() or ' Exn' in txt or 'RETURN[false]' in txt   # C20: an injected failure exit is an exit
 
     def switch(self, s, rest, jc):
         inner = s['inner']
@@ -1927,8 +2098,25 @@ class Fn:
             vs = sorted(self.assigned(loopnode, set(), set()) & set(self.env.keys()))
             used = self.used_names({'kind': 'X', 'inner': [x for x in (cond, body, inc) if x]}, set())
             ctxv = sorted(v for v in (used & set(self.env.keys())) if v not in vs)
+            tc_throws_ = False
+            if getattr(self, 'tc_cfg', None):   # C18: try_catch
+                def tc_calls_(n_):
+                    if n_.get('kind') in ('CallExpr', 'CXXMemberCallExpr'):
+                        try:
+                            if self.callee_name(n_)[0] in self.tc_cfg.get('calls', {}): return [self.callee_name(n_)[0]]
+                        except TranslationError:
+                            pass
+                    return [x_ for c_ in n_.get('inner', []) if isinstance(c_, dict) for x_ in tc_calls_(c_)]
+                found_ = tc_calls_(loopnode)
+                tc_throws_ = any(self.tc_cfg['calls'][c_].get('fails') for c_ in found_)
+                st_ = set(self.tc_cfg.get('state', [])) & set(self.env.keys())
+                vs = sorted(set(vs) | st_)
+                extra_ = set(self.tc_cfg['calls'][c_]['fails'] for c_ in found_ if self.tc_cfg['calls'][c_].get('fails'))
+                if tc_throws_ and self.tc_handler is not None:
+                    extra_ |= self.used_names(self.tc_handler, set())
+                ctxv = sorted(v for v in ((used | extra_) & set(self.env.keys())) if v not in vs)
             scope = dict(self.env)
-            has_ret = self.has_return(body)
+            has_ret = self.has_return(body) or tc_throws_
             # loop function result: outcome (option R * tuple)   [Some r = returned from function]
             def mk_res(ret, vs_txt):
                 return f'Ok ({ret}, {vs_txt})' if has_ret else f'Ok {vs_txt}'
@@ -1945,6 +2133,7 @@ class Fn:
             self.env = dict(scope)
             ctext = self.e(cond) if cond and cond != {} else 'true'
             retty = coq_ty(self.ret_ct) if self.ret_ct[0] != 'void' else 'unit'
+            if getattr(self, 'tc_cfg', None): retty = 'bool'   # C18: the completed flag
             resty = f'(option {retty} * {self.tup_ty(vs)})' if has_ret else self.tup_ty(vs)
             binders = ' '.join(f'({x} : {coq_ty(self.env[x])})' for x in ctxv + vs)
             fix = (f'Fixpoint {lname} (fuel : nat) {binders} {{struct fuel}} : outcome {resty} :=\n'
@@ -1958,6 +2147,10 @@ class Fn:
             call = f'{lname} ({fuel_inline if fuel_inline else "fuel_of_" + self.out}) ' + ' '.join(ctxv + vs)
             if has_ret:
                 r = self.fresh('r')
+                if getattr(self, 'tc_cfg', None):   # C18: a return out of the loop keeps the loop state (the ghost fields of the handler)
+                    return (f'match {call} with\n| Ok (Some {r}, {self.tup(vs) if vs else "_"}) => {jc["ret"](r)}\n'
+                            f'| Ok (None, {self.tup(vs) if vs else "_"}) =>\n{rest()}\n'
+                            f'| Stuck => Stuck | Fuel => Fuel | Exn => Exn\nend')
                 return (f'match {call} with\n| Ok (Some {r}, _) => {jc["ret"](r)}\n'
                         f'| Ok (None, {self.tup(vs) if vs else "_"}) =>\n{rest()}\n'
                         f'| Stuck => Stuck | Fuel => Fuel | Exn => Exn\nend')
@@ -2033,7 +2226,7 @@ class Fn:
                     self.extra_params.append((on, 'Z')); self.env[on] = ('u', 64)
         # pre-scan: does the function need the outcome monad?
         self.nonsimple = self.prescan(body) or self.name in self.ctx.cfg.get('force_outcome', [])   # C12: force_outcome
-        self.fails_mode = 'fails' in self.functors.values() or bool(self.fail_locals or self.fail_calls)   # C04
+        self.fails_mode = 'fails' in self.functors.values() or bool(self.fail_locals or self.fail_calls) or bool(getattr(self, 'tc_cfg', None))   # C04, C18
         if self.fails_mode:
             self.nonsimple = True
         wf_guess = None
@@ -2240,6 +2433,8 @@ def translate_group(cfg, ast_text=None, repo='/repo'):
     """returns Gallina text; raises TranslationError"""
     global OPAQUE_TYPES
     OPAQUE_TYPES = list(cfg.get('opaque_types', []))   # C06
+    global PTR_ARITH_PLAIN
+    PTR_ARITH_PLAIN = bool(cfg.get('handle_refs'))   # C11
     if ast_text is None:
         ast_text = dump_ast(cfg, repo)
     objs = load_objs(ast_text)
